@@ -208,6 +208,17 @@ def run_case(case, rec):
                     try:
                         if max(fug_dev(s), fug_dev(s2)) > 1e-2: ssfx = '/unconverged-fixed-point'
                     except Exception: pass
+                    if not ssfx:
+                        # mechanism: the T-P flash first compares P with the library's own dew pressure (P <= P_dew: all vapour); is that dew pressure an unconverged
+                        # iterate of the dew solver for either feed (the recorded C08 dew finding; an unconverged iterate depends on the rounding of z = flows / total)?
+                        try:
+                            from vt.workloads.c08 import dew_status
+                            cs_ = tuple(chems[i] for i in case['ids']); dp_ = eq.DewPoint(cs_, th); bp_ = eq.BubblePoint(cs_, th)
+                            for st in (s, s2):
+                                tot = sum(r.to_array() for r in st.imol.data.rows)[vidx]; z_ = tot / tot.sum()
+                                Pd_, xd_ = dp_.solve_Px(z_.copy(), T0)
+                                if dew_status(dp_, z_, T0, Pd_, xd_, 'solve_Px')[0] == 'unconverged' or Pd_ > bp_.solve_Py(z_.copy(), T0)[0] * (1 + 1e-9): ssfx = '/dew-solver-unconverged'
+                        except Exception: pass
                 rec.check(np.allclose(b, k * a, rtol=0, atol=1e-5 * F * k), 'scaling', 'TP' + ssfx, f'flash of {k}*feed is not {k} times the flash of the feed: max deviation {np.abs(b - k * a).max() / (F * k):.3g} of the feed', residual=float(np.abs(b - k * a).max() / (F * k)))
             # ---- ideal package vs Raoult Rachford-Rice
             if kind == 'ideal' and not case['inert']:
@@ -283,8 +294,13 @@ def run_case(case, rec):
                         # bubble temperature at one pressure is the recorded C08 dew-solver finding reaching the flash, which takes its bounds from them)
                         try:
                             z_ = np.array(case['x']); cs_ = tuple(chems[i] for i in case['ids'])
-                            Tb_ = eq.BubblePoint(cs_, th).solve_Ty(z_, s.P)[0]; Td_ = eq.DewPoint(cs_, th).solve_Tx(z_, s.P)[0]
+                            dp_ = eq.DewPoint(cs_, th)
+                            Tb_ = eq.BubblePoint(cs_, th).solve_Ty(z_, s.P)[0]; Td_, xd_ = dp_.solve_Tx(z_, s.P)
                             if Td_ < Tb_ - 1e-6: sfx_ = '/dew-below-bubble'
+                            else:
+                                # the same finding with the iterate on the other side: the dew solver's returned temperature is not a root of the dew equation
+                                from vt.workloads.c08 import dew_status
+                                if dew_status(dp_, z_, Td_, s.P, xd_, 'solve_Tx')[0] == 'unconverged': sfx_ = '/dew-solver-unconverged'
                         except Exception: pass
                     rec.check(abs(V3 - V0) <= 5e-3 + vb, 'independent-reflash', spec_name + sfx_, f'vle({spec}) returned T={s.T!r}, P={s.P!r}; an independent TP flash there gives vapour fraction {V3!r}, not {V0} ({ids}, z={case["x"]})', residual=abs(V3 - V0))
                 two_phase = True
@@ -869,7 +885,11 @@ def history_clauses(h, rec):
                 if abs(V3 - V2) > 5e-3 + vb:
                     try:
                         z_ = np.array(xB); cs_ = tuple(chems[i] for i in idsB)
-                        if eq.DewPoint(cs_, th).solve_Tx(z_, s.P)[0] < eq.BubblePoint(cs_, th).solve_Ty(z_, s.P)[0] - 1e-6: key = spec2 + '/dew-below-bubble'      # the recorded dew-solver finding reaching the flash
+                        dp_ = eq.DewPoint(cs_, th); Td_, xd_ = dp_.solve_Tx(z_, s.P)
+                        if Td_ < eq.BubblePoint(cs_, th).solve_Ty(z_, s.P)[0] - 1e-6: key = spec2 + '/dew-below-bubble'      # the recorded dew-solver finding reaching the flash
+                        else:
+                            from vt.workloads.c08 import dew_status
+                            if dew_status(dp_, z_, Td_, s.P, xd_, 'solve_Tx')[0] == 'unconverged': key = spec2 + '/dew-solver-unconverged'
                     except Exception: pass
                 rec.check(abs(V3 - V2) <= 5e-3 + vb, 'independent-reflash', key, f'{what}: vle({spec}) returned T={s.T!r}, P={s.P!r}; a T-P flash of a fresh stream with the same contents there gives vapour fraction {V3!r}, not {V2} (z={xB})', residual=abs(V3 - V2))
             two = True
